@@ -76,6 +76,7 @@ func cmdCheck(args []string) int {
 	keep := fs.Bool("keep", false, "keep SMT files")
 	timeout := fs.Int("timeout", 0, "solver timeout seconds")
 	noEvidence := fs.Bool("no-evidence", false, "do not write evidence")
+	fs.BoolVar(&noRetry, "no-retry", false, "do not retry undischarged obligations with other seeds (development)")
 	fs.Parse(args)
 	if t := os.Getenv("VERIF_TIER"); t != "" && *tier == "" {
 		*tier = t
